@@ -158,7 +158,7 @@ def analyse(prop, spec, ops, model, impl, crashes):
                 key += "+" + pre[0].replace("prefilter_kind_", "pre_") + ("x1" if n == 1 else "x2-5" if n <= 5 else "x6+")
             strat[key] += 1
         try:
-            if int(m.get("steps", "0")) >= 3:
+            if int(m.get("steps", "0")) >= 3 or (line.startswith("conc ") and int(line.split()[2]) >= 2):
                 nontrivial.add(line)
         except ValueError:
             pass
